@@ -659,7 +659,7 @@ def _recompute_nodes(func, cfg):
     return calls, alls
 
 
-def rule_T3(ctx, rid='T3'):
+def rule_T3(ctx, rid='T3', view=False):
     ctx.rule(rid, 'dirty => recompute: every write to an input of update_shell_info for an '
              'existing shell i (its samples, its proposal count, the discard flag, the phase '
              'flag, the exploration boundaries, the state of its bound) is followed on every '
@@ -753,7 +753,9 @@ def rule_T3(ctx, rid='T3'):
                    'the setter does not store the requested value (on every path, before the '
                    'recomputation): switching the view has no effect or the statistics are '
                    'recomputed for the old value')
-    _rule_T3_domain(ctx, S, rid)
+    if view:      # the view flag as an interface (C12 only): value domain, request in run()
+        _rule_T3_domain(ctx, S, rid)
+        _rule_T3_request(ctx, S, rid)
     # update_shell_info is a pure recomputation: reads of its outputs follow its own writes
     f = prog.func('Sampler.update_shell_info')
     cfg = cfg_of(f)
@@ -789,6 +791,47 @@ def rule_T3(ctx, rid='T3'):
                'history, not only on the stored samples' % (
                    out_attr, [cfg.nodes[b].lineno for b in bad]))
     return n
+
+
+def _rule_T3_request(ctx, S, rid):
+    """A view flag that a stepping method takes as an argument is a request for the state the
+    method leaves behind: the argument must reach the flag's setter also when the phase
+    transition at which it is normally applied lies in the past (an earlier call, a resume)."""
+    for name, f in sorted(S.methods.items()):
+        if f.kind != 'setter':
+            continue
+        prop = name.split('.')[0]
+        for gname, g in sorted(S.methods.items()):
+            if g.kind in ('setter', 'property') or prop not in g.params:
+                continue
+            cfg = cfg_of(g)
+            stores = [nn for nn in cfg.nodes if nn.kind == 'stmt' and
+                      isinstance(nn.ast, ast.Assign) and len(nn.ast.targets) == 1 and
+                      dotted(nn.ast.targets[0]) == '%s.%s' % (g.self_name, prop) and
+                      any(isinstance(x, ast.Name) and x.id == prop
+                          for x in ast.walk(nn.ast.value))]
+            if not stores:
+                continue
+            phase = set()
+            for nn in stores:
+                for atom, text, truth in cfg.facts(nn.id):
+                    if text.startswith('%s.' % g.self_name) and truth is False and \
+                            isinstance(atom, ast.Attribute):
+                        phase.add(text)
+            free = [nn for nn in stores
+                    if not any(text in phase and truth is False
+                               for atom, text, truth in cfg.facts(nn.id))]
+            ok = bool(free) or not phase
+            ctx.ob(rid, '%s:%s-request-applied-in-every-phase' % (g.qualname, prop), ok,
+                   g.where(stores[0].ast),
+                   'the requested view is applied whatever phase the sampler is in when %s() '
+                   'is called' % g.name if ok else
+                   'the argument `%s` of %s() reaches the flag only at `%s` under `not %s`: '
+                   'when that phase ended before the call (an earlier %s(), a resume from a '
+                   'checkpoint of a finished exploration) the request is silently ignored - '
+                   '%s() returns True with the old view' % (
+                       prop, g.name, unparse(stores[0].ast)[:50], sorted(phase)[0], g.name,
+                       g.name))
 
 
 def _rule_T3_domain(ctx, S, rid):
